@@ -61,7 +61,7 @@ func loadRepo(dir string) (*Loaded, error) {
 				continue
 			}
 		}
-		key := fn.RelString(nil)
+		key := normKey(fn.RelString(nil))
 		if fn.Origin() != nil {
 			continue // instances share the origin's contract
 		}
@@ -161,4 +161,21 @@ func endOfImports(f *ast.File) token.Pos {
 		}
 	}
 	return pos
+}
+
+// normKey removes type parameter lists from a function key: (*pkg.T[K, V]).M -> (*pkg.T).M
+func normKey(s string) string {
+	var b strings.Builder
+	depth := 0
+	for _, c := range s {
+		switch {
+		case c == '[':
+			depth++
+		case c == ']':
+			depth--
+		case depth == 0:
+			b.WriteRune(c)
+		}
+	}
+	return b.String()
 }
